@@ -216,5 +216,6 @@ def replay(body):
         ok, obs = ORACLES[r['oracle']](r['args'])
         out('oracle %s on the recorded input: %s %s' % (r['oracle'], 'holds' if ok else 'FAILS', obs))
         return 0 if ok else 1
-    out(body['what'])
-    return 1
+    import sys
+    import common
+    return common.replay_rerun(sys.modules[__name__], body)
